@@ -313,6 +313,11 @@ func judge(p *Plan, obs []Obs, stderr string, exitCode int, timedOut bool) (fs [
 	// (2) killed on request => not FAILED. Judged only when the task would have lived on: the child never exits by itself
 	// and (controllable) the device had become ready before the kill.
 	livesOn := p.Child.ExitAfterMs < 0 && !p.Child.MissingBinary
+	for _, ts := range p.Device.Transitions {
+		if ts.Outcome == "crash" {
+			livesOn = false // the device may die while handling a transition
+		}
+	}
 	readyBeforeKill := true
 	if p.Kind == "direct" {
 		readyBeforeKill = false
@@ -542,7 +547,7 @@ func genPlan(t *rapid.T) Plan {
 		}
 		for _, ev := range events {
 			if rapid.IntRange(0, len(events)).Draw(t, "special-"+ev) == 0 {
-				d.Transitions[ev] = TransitionSpec{Outcome: rapid.SampledFrom([]string{"refuse", "error", "hang", "ok"}).Draw(t, "outcome-"+ev), DelayMs: rapid.SampledFrom([]int{0, 200, 1500}).Draw(t, "tdelay-"+ev)}
+				d.Transitions[ev] = TransitionSpec{Outcome: rapid.SampledFrom([]string{"refuse", "error", "hang", "ok", "crash"}).Draw(t, "outcome-"+ev), DelayMs: rapid.SampledFrom([]int{0, 200, 1500}).Draw(t, "tdelay-"+ev)}
 			}
 		}
 		p.Device = d
@@ -624,6 +629,8 @@ func TestFixed(t *testing.T) {
 	vh.Fixed(t, prop, "fairmq-configure-stuck-at-bind-then-kill", directPlan(lives, fmqDev(map[string]TransitionSpec{"BIND": {Outcome: "refuse"}}), await, conf, Step{DelayMs: 300, Op: "kill"}), run)
 	vh.Fixed(t, prop, "direct-kill-with-forks", directPlan(ChildSpec{ExitAfterMs: -1, Forks: 2}, readyDev, await, Step{DelayMs: 300, Op: "kill"}), run)
 	vh.Fixed(t, prop, "direct-kill-after-child-died", directPlan(ChildSpec{ExitAfterMs: 300, ExitCode: 1}, readyDev, await, Step{DelayMs: 1000, Op: "kill"}), run)
+	vh.Fixed(t, prop, "direct-device-dies-while-handling-start", directPlan(lives, DeviceSpec{InitialState: "STANDBY", ReportPid: true, ExitOnDoneMs: -1, Transitions: map[string]TransitionSpec{"START": {Outcome: "crash"}}}, await, conf, start, Step{DelayMs: 300, Op: "kill"}), run)
+	vh.Fixed(t, prop, "direct-device-dies-while-handling-configure", directPlan(ChildSpec{ExitAfterMs: -1, Forks: 1}, DeviceSpec{InitialState: "STANDBY", ReportPid: true, ExitOnDoneMs: -1, Transitions: map[string]TransitionSpec{"CONFIGURE": {Outcome: "crash"}}}, await, conf), run)
 	vh.Fixed(t, prop, "direct-kill-device-hangs-on-stop", directPlan(lives, DeviceSpec{InitialState: "STANDBY", ReportPid: true, ExitOnDoneMs: 0, Transitions: map[string]TransitionSpec{"STOP": {Outcome: "hang"}}}, await, conf, start, Step{DelayMs: 300, Op: "kill"}), run)
 }
 
